@@ -33,6 +33,52 @@ def cell_diffs(a, b, eng_schema=None, limit=60):
   return out
 
 
+def groupby_oddities(state):
+  """{summary table ref: kinds of unusual values found in the source cells of its group-by columns}
+  (facts about the recorded document for known-finding matchers; never a verdict):
+    error   an error value (a data column whose default / trigger formula raised)
+    bool    True / False in a column that is not Bool or Any
+    negref  a negative number in a Ref column
+    list    a list in a column that is not ChoiceList / RefList"""
+  def num(tok):
+    try:
+      return int(float(tok[1:])) if isinstance(tok, str) and tok.startswith("#") else 0
+    except ValueError:
+      return 0
+  out = {}
+  try:
+    T, C = state["_grist_Tables"], state["_grist_Tables_column"]
+    tname = {r: t[1:] for r, t in zip(T["rows"], T["cols"]["tableId"])}
+    cname = {r: c[1:] for r, c in zip(C["rows"], C["cols"]["colId"])}
+    for tref, src in zip(T["rows"], T["cols"]["summarySourceTable"]):
+      src = num(src)
+      if not src or tname.get(src) not in state:
+        continue
+      S = state[tname[src]]
+      kinds = set()
+      for cref, parent, ssc in zip(C["rows"], C["cols"]["parentId"], C["cols"]["summarySourceCol"]):
+        if num(parent) != tref or not num(ssc):
+          continue
+        col = cname.get(num(ssc))
+        if col not in S["cols"]:
+          continue
+        base = S.get("base", {}).get(col, "")
+        for tok in S["cols"][col]:
+          if tok.startswith("E"):
+            kinds.add("error")
+          elif tok in ("b0", "b1") and base not in ("Bool", "Any"):
+            kinds.add("bool")
+          elif tok.startswith("#-") and base == "Ref":
+            kinds.add("negref")
+          elif tok.startswith("L") and base not in ("ChoiceList", "RefList"):
+            kinds.add("list")
+      if kinds:
+        out[str(tref)] = sorted(kinds)
+  except Exception as e:   # pylint: disable=broad-except
+    out["?"] = [type(e).__name__]
+  return out
+
+
 def main():
   args = json.loads(sys.argv[1])
   l = args["l"]
@@ -77,6 +123,7 @@ def main():
       if col:
         facts["%s.%s" % (d["t"], d["c"])] = {"type": col[0], "isFormula": bool(col[1]), "formula": col[2]}
   ctx["cols"] = facts
+  ctx["groupby_oddities"] = groupby_oddities(states[l - 1])
   print(json.dumps(ctx))
 
 
